@@ -142,6 +142,22 @@ template <typename LibW> struct WrBuf {
 template <> struct Wr<BW> : WrBuf<nop::BufferWriter> { using WrBuf::WrBuf; enum { checked = 0, has_skip = 1 }; };
 template <> struct Wr<PBW> : WrBuf<nop::PedanticBufferWriter> { using WrBuf::WrBuf; enum { checked = 1, has_skip = 1 }; };
 template <> struct Wr<CBW> : WrBuf<nop::ConstexprBufferWriter> { using WrBuf::WrBuf; enum { checked = 1, has_skip = 1 }; };
+#ifdef VRT_REAL_STREAMS
+// Native builds (differential validation and counterexample replay) run the library's StreamReader/StreamWriter on the
+// REAL std::istringstream / std::ostringstream; the CBMC build runs them on the models above.  The differential run
+// therefore validates the stream models against libstdc++ on every check.
+#include <sstream>
+template <> struct Wr<SW> {
+  enum { checked = 1, has_skip = 1 };
+  nop::Serializer<nop::StreamWriter<std::ostringstream>> s; std::uint8_t* b_; std::size_t cap_;
+  Wr(std::uint8_t* b, std::size_t cap) : b_(b), cap_(cap) {}
+  template <typename T> nop::Status<void> write(const T& v) { auto st = s.Write(v); sync(); return st; }
+  template <typename T> std::size_t get_size(const T& v) { return s.GetSize(v); }
+  void sync() { const std::string d = s.writer().stream().str(); for (std::size_t i = 0; i < d.size() && i < cap_; i++) b_[i] = (std::uint8_t)d[i]; }
+  std::size_t produced() { return s.writer().stream().str().size(); }
+  nop::StreamWriter<std::ostringstream>* raw() { return &s.writer(); }
+};
+#else
 template <> struct Wr<SW> {
   enum { checked = 1, has_skip = 1 };
   nop::Serializer<nop::StreamWriter<ModelOStream>> s;
@@ -151,6 +167,7 @@ template <> struct Wr<SW> {
   std::size_t produced() const { return s.writer().stream().count(); }
   nop::StreamWriter<ModelOStream>* raw() { return &s.writer(); }
 };
+#endif
 template <> struct Wr<FW> {
   enum { checked = 1, has_skip = 0 };
   nop::Serializer<nop::FdWriter> s;
@@ -183,6 +200,16 @@ template <typename LibR> struct RdBuf {
 };
 template <> struct Rd<BR> : RdBuf<nop::BufferReader> { using RdBuf::RdBuf; enum { has_skip = 1 }; };
 template <> struct Rd<PBR> : RdBuf<nop::PedanticBufferReader> { using RdBuf::RdBuf; enum { has_skip = 1 }; };
+#ifdef VRT_REAL_STREAMS
+template <> struct Rd<SR> {
+  enum { has_skip = 1 };
+  nop::Deserializer<nop::StreamReader<std::istringstream>> d;
+  Rd(const std::uint8_t* b, std::size_t n) : d{std::string(reinterpret_cast<const char*>(b), n)} {}
+  template <typename T> nop::Status<void> read(T* v) { return d.Read(v); }
+  std::size_t consumed() { d.reader().stream().clear(); return (std::size_t)d.reader().stream().tellg(); }
+  nop::StreamReader<std::istringstream>* raw() { return &d.reader(); }
+};
+#else
 template <> struct Rd<SR> {
   enum { has_skip = 1 };
   nop::Deserializer<nop::StreamReader<ModelIStream>> d;
@@ -191,6 +218,7 @@ template <> struct Rd<SR> {
   std::size_t consumed() const { return d.reader().stream().tell(); }
   nop::StreamReader<ModelIStream>* raw() { return &d.reader(); }
 };
+#endif
 template <> struct Rd<FR> {
   enum { has_skip = 0 };
   nop::Deserializer<nop::FdReader> d;
